@@ -424,7 +424,12 @@ impl Scenario for InterpDriver {
         }
     }
 
-    fn generate(&self, rng: &mut Rng, _tier: Tier) -> Plan {
+    fn generate(&self, rng: &mut Rng, tier: Tier) -> Plan {
+        // rare recursion probe: a program of n nested taken conditionals built through from_script_bits
+        if rng.chance(1, 3000) {
+            let n = if tier == Tier::Thorough { *rng.pick(&[200u64, 5_000, 20_000, 60_000, 150_000]) } else { *rng.pick(&[50u64, 200, 3_000]) };
+            return Plan { config: json!({"deep_nesting": n}), events: vec![json!({"op": "load_deep", "n": n})] };
+        }
         // swarm: opcode subset
         let all: Vec<u8> = (0u16..=255).map(|x| x as u8).filter(|b| !(1..=78).contains(b) && !matches!(b, 99..=104)).filter(|b| num_from_u8(*b).is_some()).collect();
         let mut enabled: Vec<u8> = all.iter().cloned().filter(|_| rng.chance(1, 3)).collect();
@@ -770,6 +775,55 @@ impl InterpDriver {
                         _ => return,
                     }
                     world = Some(w);
+                }
+                "load_deep" => {
+                    // recursion probe: n nested taken conditionals, built and torn down iteratively by the harness
+                    // (only the library's own clone / step / drop recurse)
+                    if world.is_some() {
+                        ctx.skip();
+                        continue;
+                    }
+                    let n = jusize(ev, "n").min(400_000);
+                    ctx.event(seq, "load_deep", "");
+                    ctx.probe("deep_program");
+                    let mut inner: Vec<ScriptBit> = vec![ScriptBit::OpCode(OpCodes::OP_1)];
+                    for _ in 0..n {
+                        inner = vec![ScriptBit::OpCode(OpCodes::OP_1), ScriptBit::If { code: OpCodes::OP_IF, pass: inner, fail: None }];
+                    }
+                    let script = Script::from_script_bits(inner);
+                    ctx.crumb("deep:Interpreter::from_script(clone)");
+                    let mut itp = Interpreter::from_script(&script);
+                    let mut steps = 0usize;
+                    loop {
+                        ctx.crumb("deep:next");
+                        match guard(|| itp.next()) {
+                            Ok(None) => break,
+                            Ok(Some(Ok(_))) => steps += 1,
+                            Ok(Some(Err(e))) => {
+                                ctx.violate("mismatch", "deep-program-error".into(), format!("nested taken conditionals failed after {} steps: {}", steps, e));
+                                break;
+                            }
+                            Err(p) => {
+                                ctx.violate("panic", format!("panic@{}#deep", site_file(&p.site)), format!("{}: {}", p.site, p.msg));
+                                break;
+                            }
+                        }
+                        if steps > 3 * n + 8 {
+                            ctx.violate("loop", "loop:deep".into(), "deep program did not terminate".into());
+                            break;
+                        }
+                        // stepping a deeply nested program is cubic in the depth (every step clones the remaining
+                        // tree, the state and the opcode history); the probe is about recursion depth, so a deep
+                        // program is stepped only a little
+                        if n > 200 && steps >= 40 {
+                            break;
+                        }
+                    }
+                    ctx.observe_str(&format!("deep {} steps {}", n, steps));
+                    ctx.crumb("deep:drop");
+                    drop(itp);
+                    drop(script);
+                    return;
                 }
                 "stdout_fault" => {
                     if world.is_none() {
